@@ -36,6 +36,9 @@ def manifest_roundtrip(tier, focus):
             return sym.choose(name, options) if focus == dim else options[-1]
 
         b.mkdir("R/ascmhl")
+        if focus == "records":
+            # dates are written with the local UTC offset: positive, negative, whole-hour and half-hour zones
+            b.use_fixed_offset(60 * sym.choose("zone_offset_minutes", [0, 330, -150, -480]))
         hl = HL.MHLHashList()
         ci = HL.MHLCreatorInfo()
         ci.tool = HL.MHLTool("ascmhl", "1.2")
